@@ -292,6 +292,50 @@ def r10_10(chk, P, rule='R10.10'):
             k += 1
     return n
 
+def r10_11(chk, P, rule='R10.11'):
+    chk.rule(rule, 'handing a cleared half-rate request on never fails: vorbis_synthesis_halfrate, interpreted (K4) with flag == 0 and '
+             'an info that has its codec set-up, returns 0 on every path and stores 0 in the flag.  The streaming link change of '
+             '_fetch_and_process_packet re-applies the request of the previous link to every new link and answers a non-zero '
+             'result with OV_EINVAL: a refusal that does not depend on the flag would end an intact chain at the first link '
+             'with 64-sample blocks')
+    import absint
+    from absint import V, K
+    F = P.need('vorbis_synthesis_halfrate')
+    chk.require(len(F.params) == 2 and F.params[0].get('record') == 'vorbis_info', 'vorbis_synthesis_halfrate signature changed')
+    P.field('vorbis_info', 'codec_setup')
+    A = absint.Analyzer(P, F, param_init={F.params[1]['name']: K(0)})
+    base_init = A.initial_env
+    pid = F.params[0]['id']
+
+    def init():
+        env = base_init()
+        env[f'v{pid}'] = V(nn=True)
+        env[f'v{pid}->codec_setup'] = V(nn=True)
+        return env
+    A.initial_env = init
+    A.run()
+    chk.require(A.ret_states, 'vorbis_synthesis_halfrate: no return reached')
+    def under_null_test(e):
+        """the return is reached only when a pointer was found null (the info without a codec set-up)"""
+        for c, pol in common.controlling_conditions(F, e):
+            cn = F.ex[F.strip_casts(c)]
+            if cn['k'] == 'un' and cn['op'] == '!' and F.ex[cn['c'][0]].get('t', '').endswith('*') and pol:
+                return True
+            if cn.get('t', '').endswith('*') and cn['k'] in ('ref', 'member') and not pol:
+                return True
+            if cn['k'] == 'bin' and cn['op'] in ('==', '!=') and ((cn['op'] == '==') == pol):
+                a, b = cn['c']
+                for x, y in ((a, b), (b, a)):
+                    if F.ex[F.strip_casts(x)].get('t', '').endswith('*') and common.const_val(F, y) == 0:
+                        return True
+        return False
+    bad = [(e, v) for (e, env, v) in A.ret_states if (v is None or v.const() != 0) and not under_null_test(e)]
+    chk.ob(rule, F.name, 'clearing-the-flag-cannot-fail', not bad, F.where(bad[0][0]) if bad else F.where(A.ret_states[0][0]),
+           f'{len(A.ret_states)} return state(s) with flag == 0, all 0' if not bad else
+           f'`{F.s(bad[0][0])}` is reachable with flag == 0 on an initialised info and yields {bad[0][1]}')
+    return 1
+
+
 def run(chk, P):
     E = getattr(P, '_effects', None) or k3.Effects(P)
     P._effects = E
@@ -344,6 +388,8 @@ def run(chk, P):
     chk.floor('R10.9', 5)
     r10_10(chk, P)
     chk.floor('R10.10', 4)
+    r10_11(chk, P)
+    chk.floor('R10.11', 1)
     chk.trusted += ['clang 14 front end', 'K3 effect analysis', 'call graph']
     return ('Path and call-graph rules decide the structural conditions under which delivery cannot matter: short reads commit '
             'exactly what arrived, the caller\'s length clamps before anything is consumed or filtered, and every access mode '
